@@ -203,7 +203,7 @@ def failure_case(asm, acc, case):
             lines += ['include_bytes blob.bin', 'string x', 'pack <I 5', 'align 4']
             open(os.path.join(root, 'blob.bin'), 'wb').write(b'\x01\x02')
         elif fault == 'bad_hex_offset':
-            args_extra = ['--hex-offset', rng.choice(['zzz', '0xZZ', '12abc', '0x'])]
+            args_extra = ['--hex-offset', rng.choice(['zzz', '0xZZ', '12abc', '0x', '-4', '-0x10', '-1', ''])]     # no text, and no address below zero
         elif fault == 'missing_input':
             src = os.path.join(root, 'nosuch.asm')
         elif fault == 'bad_include_dir':
